@@ -1,6 +1,324 @@
-//! c17 -- placeholder; implemented by the owning property module.
-use serde_json::{json, Value};
+//! c17 -- dump the Rust core's copies of the architecture tables and constants as JSON, plus a few
+//! behavioural probes for the *private* copies (vectors in eval.rs / lib.rs).
+//!
+//! No semantics of its own: every value is read from a `pub` item of the crate or observed by calling a
+//! public function.  Normalisation and comparison happen on the Python side (vp_harness/props/c17.py).
+use crate::cpu::{reg_by_name, HashBus};
+use crate::util::{err, get_u32};
+use sc62015_core::llama::eval::{power_on_reset, LlamaBus};
+use sc62015_core::llama::opcodes::{
+    InstrKind, OperandKind, RegImemOffsetKind, RegName, OPCODES,
+};
+use sc62015_core::llama::state::{mask_for, LlamaState};
+use sc62015_core::memory::{self, MemoryImage};
+use sc62015_core::{iq7000, pce500, CoreRuntime};
+use serde_json::{json, Map, Value};
 
-pub fn handle(verb: &str, _req: &Value) -> Value {
-    json!({"ok": false, "error": format!("c17.{verb} not implemented")})
+fn reg_str(r: RegName) -> String {
+    match r {
+        RegName::A => "A".into(),
+        RegName::B => "B".into(),
+        RegName::BA => "BA".into(),
+        RegName::IL => "IL".into(),
+        RegName::IH => "IH".into(),
+        RegName::I => "I".into(),
+        RegName::X => "X".into(),
+        RegName::Y => "Y".into(),
+        RegName::U => "U".into(),
+        RegName::S => "S".into(),
+        RegName::F => "F".into(),
+        RegName::PC => "PC".into(),
+        RegName::FC => "FC".into(),
+        RegName::FZ => "FZ".into(),
+        RegName::IMR => "IMR".into(),
+        RegName::Temp(n) => format!("TEMP{n}"),
+        RegName::Unknown(s) => format!("?{s}"),
+    }
 }
+
+fn operand_json(op: &OperandKind) -> Value {
+    #[allow(unreachable_patterns)]
+    match *op {
+        OperandKind::Reg(r, bits) => json!({"k": "Reg", "reg": reg_str(r), "n": bits}),
+        OperandKind::Imm(bits) => json!({"k": "Imm", "n": bits}),
+        OperandKind::ImmOffset => json!({"k": "ImmOffset"}),
+        OperandKind::IMem(bits) => json!({"k": "IMem", "n": bits}),
+        OperandKind::EMemAddr(n) => json!({"k": "EMemAddr", "n": n}),
+        OperandKind::EMemReg(n) => json!({"k": "EMemReg", "n": n}),
+        OperandKind::EMemIMem(n) => json!({"k": "EMemIMem", "n": n}),
+        OperandKind::EMemImemOffsetDestIntMem => json!({"k": "EMemImemOffsetDestIntMem"}),
+        OperandKind::EMemImemOffsetDestExtMem => json!({"k": "EMemImemOffsetDestExtMem"}),
+        OperandKind::EMemRegModePostPre => json!({"k": "EMemRegModePostPre"}),
+        OperandKind::EMemAddrWidth(n) => json!({"k": "EMemAddrWidth", "n": n}),
+        OperandKind::EMemAddrWidthOp(n) => json!({"k": "EMemAddrWidthOp", "n": n}),
+        OperandKind::EMemRegWidth(n) => json!({"k": "EMemRegWidth", "n": n}),
+        OperandKind::EMemRegWidthMode(n) => json!({"k": "EMemRegWidthMode", "n": n}),
+        OperandKind::EMemIMemWidth(n) => json!({"k": "EMemIMemWidth", "n": n}),
+        OperandKind::IMemWidth(n) => json!({"k": "IMemWidth", "n": n}),
+        OperandKind::RegPair(n) => json!({"k": "RegPair", "n": n}),
+        OperandKind::RegIMemOffset(kind) => {
+            let order = match kind {
+                RegImemOffsetKind::DestImem => "DestImem",
+                RegImemOffsetKind::DestRegOffset => "DestRegOffset",
+            };
+            json!({"k": "RegIMemOffset", "order": order})
+        }
+        OperandKind::RegB => json!({"k": "RegB"}),
+        OperandKind::RegIL => json!({"k": "RegIL"}),
+        OperandKind::RegIMR => json!({"k": "RegIMR"}),
+        OperandKind::RegF => json!({"k": "RegF"}),
+        OperandKind::Reg3 => json!({"k": "Reg3"}),
+        OperandKind::Unknown(s) => json!({"k": "Unknown", "name": s}),
+        OperandKind::Placeholder => json!({"k": "Placeholder"}),
+        OperandKind::ImemPtr => json!({"k": "ImemPtr"}),
+        other => json!({"k": "?", "debug": format!("{other:?}")}),
+    }
+}
+
+fn kind_str(k: InstrKind) -> String {
+    format!("{k:?}")
+}
+
+fn opcode_table() -> Value {
+    let rows: Vec<Value> = OPCODES
+        .iter()
+        .enumerate()
+        .map(|(idx, e)| {
+            json!({
+                "index": idx,
+                "opcode": e.opcode,
+                "kind": kind_str(e.kind),
+                "name": e.name,
+                "cond": e.cond,
+                "ops_reversed": e.ops_reversed,
+                "operands": e.operands.iter().map(operand_json).collect::<Vec<_>>(),
+            })
+        })
+        .collect();
+    Value::Array(rows)
+}
+
+const REG_NAMES: [&str; 15] = [
+    "A", "B", "BA", "IL", "IH", "I", "X", "Y", "U", "S", "PC", "F", "FC", "FZ", "IMR",
+];
+
+fn consts() -> Value {
+    let mut m = Map::new();
+    // memory.rs
+    m.insert("memory.INTERNAL_MEMORY_START".into(), json!(memory::INTERNAL_MEMORY_START));
+    m.insert("memory.ADDRESS_MASK".into(), json!(memory::ADDRESS_MASK));
+    m.insert("memory.INTERNAL_ADDR_MASK".into(), json!(memory::INTERNAL_ADDR_MASK));
+    m.insert("memory.EXTERNAL_SPACE".into(), json!(memory::EXTERNAL_SPACE));
+    m.insert("memory.INTERNAL_SPACE".into(), json!(memory::INTERNAL_SPACE));
+    m.insert("memory.INTERNAL_RAM_START".into(), json!(memory::INTERNAL_RAM_START));
+    m.insert("memory.INTERNAL_RAM_SIZE".into(), json!(memory::INTERNAL_RAM_SIZE));
+    m.insert("memory.IMEM_KOL_OFFSET".into(), json!(memory::IMEM_KOL_OFFSET));
+    m.insert("memory.IMEM_KOH_OFFSET".into(), json!(memory::IMEM_KOH_OFFSET));
+    m.insert("memory.IMEM_KIL_OFFSET".into(), json!(memory::IMEM_KIL_OFFSET));
+    m.insert("memory.IMEM_BP_OFFSET".into(), json!(memory::IMEM_BP_OFFSET));
+    m.insert("memory.IMEM_PX_OFFSET".into(), json!(memory::IMEM_PX_OFFSET));
+    m.insert("memory.IMEM_PY_OFFSET".into(), json!(memory::IMEM_PY_OFFSET));
+    m.insert("memory.IMEM_UCR_OFFSET".into(), json!(memory::IMEM_UCR_OFFSET));
+    m.insert("memory.IMEM_USR_OFFSET".into(), json!(memory::IMEM_USR_OFFSET));
+    m.insert("memory.IMEM_RXD_OFFSET".into(), json!(memory::IMEM_RXD_OFFSET));
+    m.insert("memory.IMEM_TXD_OFFSET".into(), json!(memory::IMEM_TXD_OFFSET));
+    m.insert("memory.IMEM_IMR_OFFSET".into(), json!(memory::IMEM_IMR_OFFSET));
+    m.insert("memory.IMEM_ISR_OFFSET".into(), json!(memory::IMEM_ISR_OFFSET));
+    m.insert("memory.IMEM_SCR_OFFSET".into(), json!(memory::IMEM_SCR_OFFSET));
+    m.insert("memory.IMEM_LCC_OFFSET".into(), json!(memory::IMEM_LCC_OFFSET));
+    m.insert("memory.IMEM_SSR_OFFSET".into(), json!(memory::IMEM_SSR_OFFSET));
+    // pce500.rs / iq7000.rs
+    m.insert("pce500.SYSTEM_IMAGE_LEN".into(), json!(pce500::SYSTEM_IMAGE_LEN));
+    m.insert("pce500.ROM_WINDOW_START".into(), json!(pce500::ROM_WINDOW_START));
+    m.insert("pce500.ROM_WINDOW_LEN".into(), json!(pce500::ROM_WINDOW_LEN));
+    m.insert("pce500.ROM_RESET_VECTOR_ADDR".into(), json!(pce500::ROM_RESET_VECTOR_ADDR));
+    m.insert("iq7000.ROM_WINDOW_START".into(), json!(iq7000::ROM_WINDOW_START));
+    m.insert("iq7000.ROM_WINDOW_LEN".into(), json!(iq7000::ROM_WINDOW_LEN));
+    // lib.rs
+    m.insert("lib.DEFAULT_REG_WIDTH".into(), json!(sc62015_core::DEFAULT_REG_WIDTH));
+    Value::Object(m)
+}
+
+fn dump() -> Value {
+    let mut masks = Map::new();
+    let mut widths = Map::new();
+    for n in REG_NAMES.iter() {
+        if let Some(r) = reg_by_name(n) {
+            masks.insert(n.to_string(), json!(mask_for(r)));
+        }
+        widths.insert(n.to_string(), json!(sc62015_core::register_width(n)));
+    }
+    masks.insert("TEMP0".into(), json!(mask_for(RegName::Temp(0))));
+    masks.insert("TEMP13".into(), json!(mask_for(RegName::Temp(13))));
+    let layout: Vec<Value> = sc62015_core::SNAPSHOT_REGISTER_LAYOUT
+        .iter()
+        .map(|(n, b)| json!([n, b]))
+        .collect();
+    // MemoryImage's own idea of where the internal window is (public helper functions).
+    let base = memory::INTERNAL_MEMORY_START;
+    let probes: Vec<u32> = vec![
+        0,
+        0xFFFFF,
+        base.wrapping_sub(1),
+        base,
+        base + 0xEC,
+        base + 0xFF,
+        base + 0x100,
+        0xFFFFFF,
+    ];
+    let internal: Vec<Value> = probes
+        .iter()
+        .map(|a| json!([a, MemoryImage::is_internal(*a), MemoryImage::internal_offset(*a)]))
+        .collect();
+    json!({
+        "ok": true,
+        "opcodes": opcode_table(),
+        "consts": consts(),
+        "mask_for": Value::Object(masks),
+        "register_width": Value::Object(widths),
+        "snapshot_register_layout": layout,
+        "is_internal": internal,
+    })
+}
+
+/// Tiny register-file script: [["set","BA",0x1234],["get","A"],["new"]] -> values of the gets.
+/// Used to observe the sub-register layout and effective widths of `LlamaState` behaviourally.
+fn regscript(req: &Value) -> Value {
+    let mut st = LlamaState::new();
+    let mut out: Vec<Value> = Vec::new();
+    let ops = match req.get("ops").and_then(|v| v.as_array()) {
+        Some(o) => o,
+        None => return err("c17.regscript needs ops"),
+    };
+    for op in ops {
+        let verb = op.get(0).and_then(|v| v.as_str()).unwrap_or("");
+        match verb {
+            "new" => st = LlamaState::new(),
+            "set" => {
+                let name = op.get(1).and_then(|v| v.as_str()).unwrap_or("");
+                let val = op.get(2).and_then(|v| v.as_u64()).unwrap_or(0) as u32;
+                match reg_by_name(name) {
+                    Some(r) => st.set_reg(r, val),
+                    None => return err(format!("unknown register {name}")),
+                }
+            }
+            "get" => {
+                let name = op.get(1).and_then(|v| v.as_str()).unwrap_or("");
+                match reg_by_name(name) {
+                    Some(r) => out.push(json!(st.get_reg(r))),
+                    None => return err(format!("unknown register {name}")),
+                }
+            }
+            _ => return err(format!("unknown regscript op {verb}")),
+        }
+    }
+    json!({"ok": true, "values": out})
+}
+
+fn mem_pairs(req: &Value) -> Vec<(u32, u8)> {
+    req.get("mem")
+        .and_then(|v| v.as_array())
+        .map(|a| {
+            a.iter()
+                .map(|p| {
+                    (
+                        p.get(0).and_then(|x| x.as_u64()).unwrap_or(0) as u32,
+                        p.get(1).and_then(|x| x.as_u64()).unwrap_or(0) as u8,
+                    )
+                })
+                .collect()
+        })
+        .unwrap_or_default()
+}
+
+/// `llama::eval::power_on_reset` on the hash bus: which vector does PC take?
+fn reset_llama(req: &Value) -> Value {
+    let mut bus = HashBus::new(get_u32(req, "seed", 0));
+    for (a, v) in mem_pairs(req) {
+        bus.over.insert(crate::cpu::canon(a), v);
+    }
+    bus.log_reads = true;
+    let mut st = LlamaState::new();
+    st.set_pc(get_u32(req, "pc", 0));
+    power_on_reset(&mut bus, &mut st);
+    json!({"ok": true, "pc": st.pc(), "reads": bus.reads, "writes": bus.writes.iter().map(|(a, v)| json!([a, v])).collect::<Vec<_>>()})
+}
+
+fn runtime_with(req: &Value) -> CoreRuntime {
+    let mut rt = CoreRuntime::new();
+    for (a, v) in mem_pairs(req) {
+        if MemoryImage::is_internal(a) {
+            rt.memory.write_internal_byte(a - memory::INTERNAL_MEMORY_START, v);
+        } else {
+            rt.memory.write_external_byte(a, v);
+        }
+    }
+    if let Some(regs) = req.get("regs").and_then(|v| v.as_object()) {
+        for (k, v) in regs.iter() {
+            if let Some(x) = v.as_u64() {
+                rt.set_reg(k, x as u32);
+            }
+        }
+    }
+    rt
+}
+
+/// `CoreRuntime::power_on_reset` on a real `MemoryImage`.
+fn reset_runtime(req: &Value) -> Value {
+    let mut rt = runtime_with(req);
+    rt.power_on_reset();
+    json!({"ok": true, "pc": rt.get_reg("PC")})
+}
+
+/// Hardware interrupt delivery by `CoreRuntime::step`: IMR/ISR are set through `mem`, the pending latch
+/// through the public `timer` field; PC is reported after every single step.
+fn irq_runtime(req: &Value) -> Value {
+    let mut rt = runtime_with(req);
+    rt.timer.irq_pending = true;
+    if let Some(src) = req.get("source").and_then(|v| v.as_str()) {
+        rt.timer.irq_source = Some(src.to_string());
+    }
+    let steps = get_u32(req, "steps", 2);
+    let mut pcs: Vec<Value> = vec![json!(rt.get_reg("PC"))];
+    let mut errors: Vec<Value> = Vec::new();
+    for _ in 0..steps {
+        if let Err(e) = rt.step(1) {
+            errors.push(json!(format!("{e}")));
+            break;
+        }
+        pcs.push(json!(rt.get_reg("PC")));
+    }
+    json!({"ok": true, "pcs": pcs, "errors": errors, "in_interrupt": rt.timer.in_interrupt,
+           "s": rt.get_reg("S")})
+}
+
+/// Which internal-memory byte does the timer block use as ISR?  (`timer.rs` keeps a private copy of the
+/// offset.)  A main-timer period of one cycle is ticked once on an all-zero `MemoryImage`; the non-zero
+/// internal bytes afterwards are reported.
+fn timer_isr(_req: &Value) -> Value {
+    let mut mem = MemoryImage::new();
+    let mut timer = sc62015_core::TimerContext::new(true, 1, 0);
+    let fired = timer.tick_timers(&mut mem, 16, None);
+    let touched: Vec<Value> = (0u32..0x100)
+        .filter_map(|off| match mem.read_internal_byte_silent(off) {
+            Some(v) if v != 0 => Some(json!([off, v])),
+            _ => None,
+        })
+        .collect();
+    json!({"ok": true, "fired": [fired.0, fired.1], "nonzero": touched})
+}
+
+pub fn handle(verb: &str, req: &Value) -> Value {
+    match verb {
+        "timer_isr" => timer_isr(req),
+        "dump" => dump(),
+        "regscript" => regscript(req),
+        "reset_llama" => reset_llama(req),
+        "reset_runtime" => reset_runtime(req),
+        "irq_runtime" => irq_runtime(req),
+        _ => err(format!("unknown c17 verb {verb}")),
+    }
+}
+
+#[allow(dead_code)]
+fn _bus_is_llama_bus<B: LlamaBus>(_b: &B) {}
